@@ -177,7 +177,8 @@ def register_merge_table(R):
         from .c_containers import common_req
         return common_req(c, value=None) + [('valid', z3.And(S.valid_flags(c.pre, s), S.valid_flags(c.pre, o))), ('Inv_views', inv_dict(c, c.pre, s)),
                                             ('apart', z3.And(s != o, chref(c.pre, s) != o)),
-                                            ('function-node-has-a-target', z3.Not(sym.is_undef(c.pre.get('_func', s))))]
+                                            ('function-node-has-a-target', z3.Or(is_str(c.pre.get('_func', s)), is_ref(c.pre.get('_func', s)))),
+                                            ('other-target-is-a-name-or-callable', z3.Or(sym.is_undef(c.pre.get('_func', o)), is_str(c.pre.get('_func', o)), is_ref(c.pre.get('_func', o))))]
 
     R.add(Contract(F + 'FunctionNode.ayns.on_merge_impl', [P.node('self', ['CallNode', 'BindNode']), P.path('prefix'), P.node('other', 'ConfigNode')],
                    requires=req, modifies=lambda c: [(f, 'all') for f in NODEF], ensures=[('table', ens)],
